@@ -36,6 +36,17 @@ TERMINATORS = (ast.Return, ast.Raise, ast.Continue, ast.Break)
 FUNC = (ast.FunctionDef, ast.AsyncFunctionDef)
 
 
+def pysrc_dotted(e):
+    parts = []
+    while isinstance(e, ast.Attribute):
+        parts.append(e.attr)
+        e = e.value
+    if isinstance(e, ast.Name):
+        parts.append(e.id)
+        return ".".join(reversed(parts))
+    return None
+
+
 def on(p):
     return p not in OFF
 
@@ -122,6 +133,16 @@ class Expr(ast.NodeTransformer):
         self.generic_visit(node)
         if on("E4") and len(node.keywords) > 1:
             node.keywords = sorted(node.keywords, key=lambda k: (k.arg is None, k.arg or ""))
+        if on("E6") and isinstance(node.func, ast.Name) and node.func.id == "list" and len(node.args) == 1 and not node.keywords and isinstance(node.args[0], ast.Call):
+            inner = node.args[0]
+            # list(map(f, xs)) == [f(v) for v in xs]   (f a plain name / attribute: evaluated once either way, and pure)
+            if isinstance(inner.func, ast.Name) and inner.func.id == "map" and len(inner.args) == 2 and not inner.keywords and isinstance(inner.args[0], (ast.Name, ast.Attribute)):
+                v = loc(ast.Name(id="_m", ctx=ast.Store()), node)
+                call = loc(ast.Call(func=inner.args[0], args=[loc(ast.Name(id="_m", ctx=ast.Load()), node)], keywords=[]), node)
+                return loc(ast.ListComp(elt=call, generators=[ast.comprehension(target=v, iter=inner.args[1], ifs=[], is_async=0)]), node)
+            # list(sorted(xs)) == sorted(xs)
+            if isinstance(inner.func, ast.Name) and inner.func.id == "sorted":
+                return inner
         return node
 
     def visit_IfExp(self, node):
@@ -332,6 +353,18 @@ class Canon:
                 if c is not None:
                     c[st.targets[0].id] = c.get(st.targets[0].id, 0) + 1
             return self.stmt(loc(ast.If(test=e.test, body=[a], orelse=[b]), st), outer)
+        # S7: `_, x = pair()` -> `x = pair()[1]` for the library calls that return a pair
+        if on("S7") and isinstance(st, ast.Assign) and len(st.targets) == 1 and isinstance(st.targets[0], ast.Tuple) and len(st.targets[0].elts) == 2 \
+                and isinstance(st.value, ast.Call) and (pysrc_dotted(st.value.func) or "") in ("os.path.splitext", "os.path.split", "divmod"):
+            a, b = st.targets[0].elts
+            keep = None
+            if isinstance(a, ast.Name) and a.id == "_" and isinstance(b, ast.Name):
+                keep = (b, 1)
+            elif isinstance(b, ast.Name) and b.id == "_" and isinstance(a, ast.Name):
+                keep = (a, 0)
+            if keep is not None:
+                sub = loc(ast.Subscript(value=st.value, slice=loc(ast.Constant(value=keep[1]), st), ctx=ast.Load()), st)
+                return self.stmt(loc(ast.Assign(targets=[keep[0]], value=sub), st), outer)
         if on("S6") and isinstance(st, ast.Assign) and len(st.targets) == 1 and isinstance(st.targets[0], ast.Name) \
                 and isinstance(st.value, ast.BinOp) and isinstance(st.value.left, ast.Name) and st.value.left.id == st.targets[0].id \
                 and isinstance(st.value.op, ast.Add):
@@ -365,6 +398,7 @@ def canonical(tree, rel=None):
     if "ALL" in OFF:
         return tree
     if rel is not None:
+        tree = inline_constants(tree, rel)
         tree = inline_helpers(tree, rel)
         ast.fix_missing_locations(tree)
     return Canon().module(tree)
@@ -504,11 +538,49 @@ class _Inliner:
                     local.add(n.name)
         local -= nonlocal_names
         ren = {x: x + suf for x in local}
+        # a parameter that the helper never rebinds and whose argument is a plain name or a constant is replaced by the
+        # argument itself (no binding statement): the caller then reads exactly as before the extraction
+        stored = set()
+        for s in body:
+            for n in ast.walk(s):
+                if isinstance(n, ast.Name) and isinstance(n.ctx, (ast.Store, ast.Del)):
+                    stored.add(n.id)
+        direct = {}
+        for p_ in params:
+            a_ = bound[p_]
+            if p_ in stored:
+                continue
+            if isinstance(a_, ast.Name) and a_.id not in nonlocal_names:
+                direct[p_] = a_
+            elif isinstance(a_, ast.Constant) and not isinstance(a_.value, (bytes, str)) or (isinstance(a_, ast.Constant) and isinstance(a_.value, str) and len(a_.value) < 40):
+                direct[p_] = a_
 
         class R(ast.NodeTransformer):
             def visit_Name(self, node):
+                if node.id in direct and isinstance(node.ctx, ast.Load):
+                    return loc(copy.deepcopy(direct[node.id]), node)
                 if node.id in ren:
                     node.id = ren[node.id]
+                return node
+
+            def visit_Compare(self, node):
+                self.generic_visit(node)
+                if len(node.ops) == 1 and isinstance(node.ops[0], (ast.Is, ast.IsNot)) and isinstance(node.left, ast.Constant) and isinstance(node.comparators[0], ast.Constant) \
+                        and (node.left.value is None or node.comparators[0].value is None):
+                    same = node.left.value is node.comparators[0].value
+                    return loc(ast.Constant(value=same if isinstance(node.ops[0], ast.Is) else not same), node)
+                return node
+
+            def visit_If(self, node):
+                self.generic_visit(node)
+                if isinstance(node.test, ast.Constant) and isinstance(node.test.value, bool):
+                    return (node.body if node.test.value else node.orelse) or None
+                return node
+
+            def visit_IfExp(self, node):
+                self.generic_visit(node)
+                if isinstance(node.test, ast.Constant) and isinstance(node.test.value, bool):
+                    return node.body if node.test.value else node.orelse
                 return node
 
             def visit_ExceptHandler(self, node):
@@ -522,16 +594,18 @@ class _Inliner:
 
         out = []
         for p in params:
-            out.append(loc(ast.Assign(targets=[loc(ast.Name(id=ren[p], ctx=ast.Store()), call)], value=bound[p]), call))
+            if p not in direct:
+                out.append(loc(ast.Assign(targets=[loc(ast.Name(id=ren[p], ctx=ast.Store()), call)], value=bound[p]), call))
         value = None
         for s in body:
             s = R().visit(s)
             if s is None:
                 continue
-            if isinstance(s, ast.Return):
-                value = s.value
-            else:
-                out.append(s)
+            for s1 in (s if isinstance(s, list) else [s]):
+                if isinstance(s1, ast.Return):
+                    value = s1.value
+                else:
+                    out.append(s1)
         return out, value
 
     def block(self, stmts):
@@ -557,6 +631,8 @@ class _Inliner:
             holder = "test"
         elif isinstance(st, (ast.For, ast.AsyncFor)):
             holder = "iter"
+        elif isinstance(st, ast.Raise) and st.exc is not None:
+            holder = "exc"
         if holder is None:
             return [st]
         pre = []
@@ -611,3 +687,103 @@ def inline_helpers(tree, rel):
     if "H1" in OFF:
         return tree
     return _Inliner(rel).run(tree)
+
+
+# ---------------------------------------------------------------------------------------------------------------
+# H2: module-level (and class-level) constants that today's (reviewed) tree does not have
+# ---------------------------------------------------------------------------------------------------------------
+#
+# "Hoist a literal / a table to a named constant" is undone: a name bound exactly once at module level (or in a class
+# body, used as self.NAME / cls.NAME / Class.NAME) to a literal - constants, names, attributes and displays of those, no
+# calls - that is not a global of the reviewed tree (known_globals.json), is never rebound, deleted, declared global or
+# mutated through a method call / subscript store, is replaced by its value where it is read.
+
+_KNOWN_G = None
+_MUTATORS = {"append", "extend", "insert", "pop", "remove", "clear", "update", "add", "discard", "setdefault", "popitem", "sort", "reverse"}
+
+
+def known_globals(rel):
+    global _KNOWN_G
+    if _KNOWN_G is None:
+        try:
+            with open(os.path.join(os.path.dirname(os.path.abspath(__file__)), "known_globals.json")) as f:
+                _KNOWN_G = _json.load(f)
+        except OSError:
+            _KNOWN_G = {}
+    return set(_KNOWN_G.get(rel, ()))
+
+
+def _literal(e):
+    if isinstance(e, (ast.Constant, ast.Name)):
+        return True
+    if isinstance(e, ast.Attribute):
+        return _literal(e.value)
+    if isinstance(e, (ast.Tuple, ast.List, ast.Set)):
+        return all(_literal(x) for x in e.elts)
+    if isinstance(e, ast.Dict):
+        return all(k is not None and _literal(k) for k in e.keys) and all(_literal(v) for v in e.values)
+    if isinstance(e, ast.UnaryOp):
+        return _literal(e.operand)
+    if isinstance(e, ast.JoinedStr):
+        return False
+    return False
+
+
+def inline_constants(tree, rel):
+    if "H2" in OFF:
+        return tree
+    known = known_globals(rel)
+    cands = {}
+    for st in tree.body:
+        if isinstance(st, ast.Assign) and len(st.targets) == 1 and isinstance(st.targets[0], ast.Name) and st.targets[0].id not in known and _literal(st.value):
+            cands[st.targets[0].id] = (st, None)
+        elif isinstance(st, ast.ClassDef):
+            for s2 in st.body:
+                if isinstance(s2, ast.Assign) and len(s2.targets) == 1 and isinstance(s2.targets[0], ast.Name) and f"{st.name}.{s2.targets[0].id}" not in known and _literal(s2.value):
+                    cands.setdefault(s2.targets[0].id, (s2, st.name))
+    if not cands:
+        return tree
+    # disqualify: any other binding of the name anywhere, global declarations, mutation
+    for n in ast.walk(tree):
+        if isinstance(n, ast.Name) and n.id in cands and isinstance(n.ctx, (ast.Store, ast.Del)) and n is not cands[n.id][0].targets[0]:
+            cands.pop(n.id)
+        elif isinstance(n, (ast.Global, ast.Nonlocal)):
+            for x in n.names:
+                cands.pop(x, None)
+        elif isinstance(n, ast.arg) and n.arg in cands and cands[n.arg][1] is None:
+            cands.pop(n.arg)
+        elif isinstance(n, ast.Attribute) and n.attr in cands and cands[n.attr][1] is not None and isinstance(n.ctx, (ast.Store, ast.Del)):
+            cands.pop(n.attr)
+    def ref_name(e):
+        if isinstance(e, ast.Name) and e.id in cands and cands[e.id][1] is None:
+            return e.id
+        if isinstance(e, ast.Attribute) and e.attr in cands and cands[e.attr][1] is not None and isinstance(e.value, ast.Name) and e.value.id in ("self", "cls", cands[e.attr][1]):
+            return e.attr
+        return None
+    for n in ast.walk(tree):
+        if isinstance(n, ast.Call) and isinstance(n.func, ast.Attribute) and n.func.attr in _MUTATORS and ref_name(n.func.value):
+            cands.pop(ref_name(n.func.value), None)
+        elif isinstance(n, ast.Subscript) and isinstance(n.ctx, (ast.Store, ast.Del)) and ref_name(n.value):
+            cands.pop(ref_name(n.value), None)
+    if not cands:
+        return tree
+
+    class Sub(ast.NodeTransformer):
+        def visit_Name(self, node):
+            if isinstance(node.ctx, ast.Load) and ref_name(node):
+                return loc(copy.deepcopy(cands[node.id][0].value), node)
+            return node
+
+        def visit_Attribute(self, node):
+            if isinstance(node.ctx, ast.Load) and ref_name(node):
+                return loc(copy.deepcopy(cands[node.attr][0].value), node)
+            return self.generic_visit(node)
+
+    for n in ast.walk(tree):
+        if isinstance(n, (ast.FunctionDef, ast.AsyncFunctionDef)):
+            # a local of the same name shadows the constant
+            shadow = {x.id for x in ast.walk(n) if isinstance(x, ast.Name) and isinstance(x.ctx, ast.Store)} | {a.arg for a in ast.walk(n) if isinstance(a, ast.arg)}
+            if shadow & {k for k, v in cands.items() if v[1] is None}:
+                continue
+            n.body = [Sub().visit(s) for s in n.body]
+    return tree
